@@ -1,6 +1,20 @@
 import TracklibVerif.Model.Cinematics
+import TracklibVerif.Model.CinematicsTab
 import TracklibVerif.Drv.Util
-/-! Driver handler for C17. One command:
+/-! Driver handler for C17. Two commands:
+
+  world <mode f|q> <pool> <ops>      a history on observations shared between tracks (`Model/CinematicsTab.lean`)
+     pool   : observations `x,y,z,Y,M,D,h,m,s,ms` joined by `;` — they form track 0
+     ops    : joined by `;`, fields joined by `:` —
+              a:k computeAbsCurv | s:k estimate_speed | f:k addAnalyticalFeature(speed) | d:k addAnalyticalFeature(ds,"ds")
+              I:k operate(INTEGRATOR,"ds","abs_curv") | E:k operate("abs_curv=I{ds}") | D:k operate(DIFFERENTIATOR,"abs_curv","dd") | L:k length()
+              c:k computeCurvAbsBetweenTwoPoints | g:k:name read | rm:k:name | w:k:name:v,v,… track[name]=list
+              q:k:sorted|dur|t | add:i:j | ext:k:a:b | sl:k:a:b | cp:k | ex:k:i:x|y|z:v | et:k:i:field:v
+     reply  : one block per op `res~names before~columns before~names after~columns after~heap` (names / columns of
+              the track operated on; res = `-` | `n<v>` | `c<v,…>` | `b0|b1` | `i<ids>` | `err:<kind>`; heap = observations
+              `x,y,z,Y,M,D,h,m,s,ms,len(features)` joined by `;`), then one block `T<ids>~names~columns` per track.
+     mode q : exact rationals; `bad-request` unless every distance a computation takes is the root of a rational square
+
 
   run <mode f|q> <xs> <ys> <ts> <feats> <ops>
      mode f : scalars are IEEE bit patterns (model at `Float`, `Float.sqrt`)
@@ -56,8 +70,135 @@ def run (sqrt : α → α) (rd : String → Option α) (sh : α → String) (ok 
   | _, _, _, _ => "bad-request"
 end generic
 
+/-! ### histories on shared observations -/
+section world
+open TV.CinTab TV.Features TV.ObsTime
+
+variable {α : Type} [Add α] [Sub α] [Mul α] [Div α] [OfNat α 0] [BEq α] [LE α] [DecidableLE α] [IntCast α]
+
+def showV (sh : α → String) : Option α → String
+  | none => "nan"
+  | some a => sh a
+
+def readV (rd : String → Option α) (w : String) : Option (Option α) := if w == "nan" then some none else (rd w).map some
+
+def obs? (rd : String → Option α) (s : String) : Option (WObs (Option α)) :=
+  match s.splitOn "," with
+  | [x, y, z, yr, mo, d, h, mi, sc, ms] =>
+    match readV rd x, readV rd y, readV rd z, yr.toNat?, mo.toNat?, [d, h, mi, sc, ms].mapM String.toInt? with
+    | some x, some y, some z, some yr, some mo, some [d, h, mi, sc, ms] => some ⟨x, y, z, ⟨yr, mo, d, h, mi, sc, ms⟩, []⟩
+    | _, _, _, _, _, _ => none
+  | _ => none
+
+def wop? (rd : String → Option α) (s : String) : Option (WOp (Option α)) :=
+  match s.splitOn ":" with
+  | ["a", k] => k.toNat?.map .absCurv
+  | ["s", k] => k.toNat?.map .speed
+  | ["f", k] => k.toNat?.map .speedAF
+  | ["d", k] => k.toNat?.map .dsAF
+  | ["I", k] => k.toNat?.map .integ
+  | ["E", k] => k.toNat?.map .integExpr
+  | ["D", k] => k.toNat?.map .diff
+  | ["L", k] => k.toNat?.map .length
+  | ["c", k] => k.toNat?.map .curvAbs
+  | ["g", k, name] => k.toNat?.map (.read · name)
+  | ["rm", k, name] => k.toNat?.map (.remove · name)
+  | ["w", k, name, vals] =>
+    match k.toNat?, (splitTok vals ',').mapM (readV rd) with
+    | some k, some l => some (.write k name l)
+    | _, _ => none
+  | ["q", k, what] =>
+    match k.toNat? with
+    | some k => if what == "sorted" then some (.sorted k) else if what == "dur" then some (.duration k)
+                else if what == "t" then some (.times k) else none
+    | none => none
+  | ["add", i, j] => match i.toNat?, j.toNat? with | some i, some j => some (.add i j) | _, _ => none
+  | ["ext", k, a, b] => match k.toNat?, a.toNat?, b.toNat? with | some k, some a, some b => some (.extract k a b) | _, _, _ => none
+  | ["sl", k, a, b] => match k.toNat?, a.toNat?, b.toNat? with | some k, some a, some b => some (.slice k a b) | _, _, _ => none
+  | ["cp", k] => k.toNat?.map .copy
+  | ["ex", k, i, c, v] => match k.toNat?, i.toNat?, readV rd v with | some k, some i, some v => some (.setPos k i c v) | _, _, _ => none
+  | ["et", k, i, field, v] => match k.toNat?, i.toNat?, v.toInt? with | some k, some i, some v => some (.setTime k i field v) | _, _, _ => none
+  | _ => none
+
+def showWErr : Err → String
+  | .reserved | .empty | .unknown => "err:AnalyticalFeatureError"
+  | .key => "err:key" | .index => "err:index" | .value => "err:value" | .type => "err:type" | .exit => "err:exit"
+  | .unsupported => "unsupported"
+
+def showWRet (sh : α → String) : Except Err (WRet (Option α)) → String
+  | .error e => showWErr e
+  | .ok .none => "-"
+  | .ok (.num v) => "n" ++ showV sh v
+  | .ok (.col l) => "c" ++ showList (showV sh) l
+  | .ok (.bool b) => "b" ++ showBool b
+  | .ok (.ids l) => "i" ++ showList toString l
+
+/-- names and columns of the track in focus, read through its own dict -/
+def showTable (sh : α → String) (g : GOps (Option α)) (w : World (Option α)) : String :=
+  let names := w.trk.dico.map Prod.fst
+  joinWith "," names ++ "~" ++ joinWith ";" (names.map fun n =>
+    match (getW g.toOps n w).1 with
+    | .ok l => showList (showV sh) l
+    | .error e => showWErr e)
+
+def showHeap (sh : α → String) (w : World (Option α)) : String :=
+  joinWith ";" (w.heap.map fun ob =>
+    s!"{showV sh ob.x},{showV sh ob.y},{showV sh ob.z},{ob.t.year},{ob.t.month},{ob.t.day},{ob.t.hour},{ob.t.min},{ob.t.sec},{ob.t.ms},{ob.feats.length}")
+
+/-- does the operation take square roots of distances between fixes of its track -/
+def geometric : WOp (Option α) → Bool
+  | .absCurv _ | .speed _ | .speedAF _ | .dsAF _ | .length _ | .curvAbs _ => true
+  | _ => false
+
+def runWorld (g : GOps (Option α)) (sh : α → String) (ok : World (Option α) → Bool) :
+    List (WOp (Option α)) → World (Option α) → List String → Option (World (Option α) × List String)
+  | [], w, acc => some (w, acc.reverse)
+  | op :: ops, w, acc =>
+    let wk := { w with cur := op.track }
+    if op.track ≥ w.trks.length then none
+    else if geometric op && !(ok wk) then none
+    else
+      let pre := showTable sh g wk
+      match stepW g op w with
+      | (.error .unsupported, _) => none
+      | (r, w') =>
+        let wk' := { w' with cur := op.track }
+        runWorld g sh ok ops w' (s!"{showWRet sh r}~{pre}~{showTable sh g wk'}~{showHeap sh w'}" :: acc)
+
+def world (g : GOps (Option α)) (rd : String → Option α) (sh : α → String) (ok : World (Option α) → Bool)
+    (pool ops : String) : String :=
+  match (splitTok pool ';').mapM (obs? rd), (splitTok ops ';').mapM (wop? rd) with
+  | some H, some O =>
+    if H.isEmpty then "bad-request"
+    else
+      match runWorld g sh ok O { heap := H, trks := [⟨List.range H.length, []⟩], cur := 0 } [] with
+      | none => "bad-request"
+      | some (w, blocks) =>
+        let tracks := (List.range w.trks.length).map fun k =>
+          let wk := { w with cur := k }
+          "T" ++ showList toString wk.trk.ids ++ "~" ++ showTable sh g wk
+        " ".intercalate (blocks ++ tracks)
+  | _, _ => "bad-request"
+end world
+
+local instance : IntCast Float := ⟨Float.ofInt⟩
+
+/-- mode q: every pair of fixes of the track in focus is at a rational distance, in the plane and in space -/
+def squaresOK (w : TV.CinTab.World (Option Rat)) : Bool :=
+  let P := w.trk.ids.filterMap (fun id => w.heap[id]?)
+  P.all fun p => P.all fun q =>
+    match p.x, p.y, p.z, q.x, q.y, q.z with
+    | some px, some py, some pz, some qx, some qy, some qz =>
+      let d2 := (px - qx) * (px - qx) + (py - qy) * (py - qy)
+      isSquare d2 && isSquare (d2 + (pz - qz) * (pz - qz))
+    | _, _, _, _, _, _ => false
+
 def handle (cmd : String) (args : List String) : String :=
   match cmd, args with
+  | "world", [mode, pool, ops] =>
+    if mode == "f" then world (TV.CinTab.optG Float.sqrt Float.ofNat Float.isNaN) float? showFloat (fun _ => true) pool ops
+    else if mode == "q" then world (TV.CinTab.optG ratSqrt (fun n => (n : Rat)) (fun _ => false)) rat? showRat squaresOK pool ops
+    else "bad-request"
   | "run", [mode, xs, ys, ts, feats, ops] =>
     if mode == "f" then run Float.sqrt float? showFloat (fun _ => true) xs ys ts feats ops
     else if mode == "q" then run ratSqrt rat? showRat allSquares xs ys ts feats ops
